@@ -68,7 +68,18 @@ func c23Check(cl *world.Client, in c23Info) []explore.Violation {
 	for i, p := range cl.Recv {
 		name := ref.TypeNames[p.Type]
 		if seenDisc {
-			add("after-disconnect:"+v+":"+name, "%s written after DISCONNECT", p)
+			// the pinned tree has a window between writing DISCONNECT and stopping the client in
+			// which the write loop (queued PUBLISH) or the reader (a response) still writes; the
+			// connection is closed right after. Anything written to a connection that stays open
+			// after its DISCONNECT is a different matter and keeps the packet type in its key.
+			switch {
+			case !cl.Closed():
+				add("after-disconnect:"+v+":"+name+":connection-left-open", "%s written after DISCONNECT and the connection is still open at quiescence", p)
+			case p.Type == ref.PUBLISH:
+				add("after-disconnect:"+v+":queued-publish:before-close", "%s written after DISCONNECT", p)
+			default:
+				add("after-disconnect:"+v+":response:before-close", "%s written after DISCONNECT", p)
+			}
 		}
 		ok := c23ServerTypes[p.Type] || (in.Ver >= 5 && (p.Type == ref.DISCONNECT || p.Type == ref.AUTH))
 		if !ok {
